@@ -461,20 +461,37 @@ def dnbinom(x, size, prob, mu, log=True):
     https://stat.ethz.ch/R-manual/R-devel/library/stats/html/NegBinomial.html
     '''
     
-def pnbinom(q, size, prob, mu, lower_tail = True, log=True):
+def _nb_prob(size, prob, mu):
+    if (prob is None) == (mu is None):
+        raise Exception("Exactly one of 'prob' and 'mu' must be specified")
+    return size/(size + mu) if prob is None else prob
+
+def pnbinom(q, size, prob=None, mu=None, lower_tail=True, log=False):
     '''
     See
     https://stat.ethz.ch/R-manual/R-devel/library/stats/html/NegBinomial.html
     '''
-    
-def qnbinom(p, size, prob, mu, lower_tail = True, log=True):
+    prob = _nb_prob(size, prob, mu)
+    f = (st.nbinom.logcdf if log else st.nbinom.cdf) if lower_tail else (st.nbinom.logsf if log else st.nbinom.sf)
+    return f(q, n=size, p=prob)
+
+def qnbinom(p, size, prob=None, mu=None, lower_tail=True, log=False):
     '''
     See
     https://stat.ethz.ch/R-manual/R-devel/library/stats/html/NegBinomial.html
     '''
-    
-def rnbinom(n, size, prob, mu, seed=None):
-    pass
+    prob = _nb_prob(size, prob, mu)
+    f = st.nbinom.ppf if lower_tail else st.nbinom.isf
+    return f(np.exp(p) if log else p, n=size, p=prob)
+
+def rnbinom(n, size, prob=None, mu=None, seed=None):
+    '''
+    See
+    https://stat.ethz.ch/R-manual/R-devel/library/stats/html/NegBinomial.html
+    '''
+    prob = _nb_prob(size, prob, mu)
+    rvs = np.random.negative_binomial if seed is None else test_seed(seed).negative_binomial
+    return rvs(size, prob, size=n) if n > 1 else rvs(size, prob, size=n)[0]
 
 
 ##### Negative Binomial distribution
